@@ -50,7 +50,20 @@ contains
     integer, intent(in) :: n
     x = n
   end subroutine psub
+  pure subroutine pinc(x, n)
+    integer, intent(inout) :: x
+    integer, intent(in) :: n
+    x = x + n
+  end subroutine pinc
+  pure subroutine pvec(n, v, w)
+    integer, intent(in) :: n
+    integer, intent(inout) :: v(:)
+    integer, intent(out) :: w
+    v(1) = n
+    w = n
+  end subroutine pvec
   subroutine p()
+    use extm, only: epsub
 """
 
 FOOTER = """  end subroutine p
@@ -174,14 +187,32 @@ class Gen(minif.BodyGen):
             lambda: f"{a}({a}({r.randint(0, 4)})) = {self.expr(live, 1)}",      # refused
             lambda: f"{a}({b}({self.subscript(live)})) = {self.expr(live, 1)}",
         ]
+        forms.append(lambda: f"call psub({self.arg(live)}, {self.expr(live, 1)})")
+        forms.append(lambda: f"call psub(n={self.expr(live, 1)}, x={self.arg(live)})")
+        forms.append(lambda: f"call pinc({self.arg(live)}, {self.expr(live, 1)})")
+        forms.append(lambda: f"call pvec({self.expr(live, 1)}, {self.sref(live, scalar=False)}, {self.arg(live)})")
+        forms.append(lambda: f"call pvec({s}, {a}, {self.sref(live)})")
+        forms.append(lambda: f"write(*,*) {self.arg(live)}, {s}")
+        forms.append(lambda: f"read(*,*) {r.choice([s, self.sref(live), a + '(' + self.subscript(live) + ')'])}")
+        forms.append(lambda: f"if ({self.cond(live)}) return")
+        if live:
+            forms.append(lambda: f"if ({self.cond(live)}) exit")
+            forms.append(lambda: f"if ({self.cond(live)}) cycle")
         if self.pure_sub:
-            forms.append(lambda: f"call psub({self.arg(live)}, {self.expr(live, 1)})")
-            forms.append(lambda: f"call psub({s}, {s})")
+            # a PURE subroutine defined elsewhere (known finding C11-pure-subroutine-args-read)
+            forms.append(lambda: f"call epsub({self.arg(live)}, {self.expr(live, 1)})")
+            forms.append(lambda: f"call epsub({s}, {s})")
         return [ind + r.choice(forms)()]
 
     def assign(self, live, ind="  "):
-        if self.rng.random() < 0.35:
+        x = self.rng.random()
+        if x < 0.35:
             return self.special(live, ind)
+        if x < 0.42:
+            s = self.rng.choice(self.scalars)
+            return ([f"{ind}do while ({s} < {self.rng.randint(3, 9)} .and. {self.ref(live)} > {self.rng.randint(-3, 2)})"]
+                    + [ind + "  " + self.special(live, "")[0] if self.rng.random() < 0.3 else ind + "  " + super().assign(live, "")[0]]
+                    + [f"{ind}  {s} = {s} + {self.rng.randint(1, 2)}", f"{ind}end do"])
         return super().assign(live, ind)
 
 
